@@ -680,6 +680,27 @@ def r12(F, R):
     R.floor("C16-R12", 1)
 
 
+def r13(F, R):
+    R.rule("C16-R13", "the declared size of the statistics' dimension is the size of the values: StatsDims.n_dim (what Settings::stat_dim_sizes reports for "
+                      "`unconstrained_parameter`) is Math::dim() itself - not clamped, rounded or offset - so that a vector statistic, whose values have "
+                      "math.dim() entries, always has the length its declared dimension gives (also for a model without parameters)")
+    ws = K.field_writers(F, "sampler_stats::StatsDims", "n_dim")
+    if not ws:
+        R.missing("C16-R13", "writers of StatsDims.n_dim")
+    for (b, bb, st, v, how) in ws:
+        site = "%s @%s" % (b.path, loc(st["span"]))
+        key = "%s:n_dim" % b.path
+        calls = [strip_generics(x[1]).split("::")[-1] for x in vt_walk(v) if x[0] == "call"]
+        bins = [x[1] for x in vt_walk(v) if x[0] == "bin"]
+        if calls == ["dim"] and not bins:
+            R.ok("C16-R13", key, site, "n_dim = math.dim() as u64")
+        elif v[0] == "call" and path_ends(v[1], "Clone::clone"):
+            R.ok("C16-R13", key, site, "copied")
+        else:
+            R.bad("C16-R13", key, site, "n_dim = %s: the declared size of `unconstrained_parameter` is not Math::dim() itself (calls %s, arithmetic %s)" % (vt_str(v)[:80], calls, bins))
+    R.floor("C16-R13", 1)
+
+
 def run(F, R, config=None):
     decl = r1_r2_r3(F, R)
     r4_r5(F, R, decl)
@@ -690,6 +711,7 @@ def run(F, R, config=None):
     r9(F, R)
     r10(F, R)
     r12(F, R)
+    r13(F, R)
     # the update marker is the transformation id: it must change whenever the transformation does (C02-R5 analysis)
     from . import c02
     K.borrow_rule(R, lambda sub: c02.r5(F, sub), "C16-R11", "every function that changes a transformation (scales, mean, low-rank part) also increments its id, so the "
